@@ -332,8 +332,8 @@ func intMul(a, b Int) Object {
 	if b < 0 {
 		absB = -b
 	}
-	// A crude but effective test!
-	if absA <= sqrtIntMax && absB <= sqrtIntMax {
+	// A crude but effective test!  (-IntMin is IntMin again, so exclude negative "magnitudes")
+	if absA >= 0 && absB >= 0 && absA <= sqrtIntMax && absB <= sqrtIntMax {
 		return Int(a * b)
 	}
 	aBig := big.NewInt(int64(a))
